@@ -91,7 +91,7 @@ def check(run):
     maxraise = 12 if not thorough else 16
     prof = rc.profile(w=dict(expr=5, callc=4, block=2, inc=3, text=3, mark=5, ret=1, **{"try": 1, "for": 2, "with": 2, "while": 1, "if": 1}),
                       nincs=(0, 2), depth=3, p_fm=0.8, p_dm=0.8, p_amark=0.5, eh=0.0, fe=0.0, p_bad_args=0.03, p_cmark=0.4,
-                      eh_modes=["true", "false", "raise"], ieh_modes=["true", "true", "false", "raise"], xcs=["boom", "boom", "abort", "sysexit", "kbint", "stopiter"], p_inh=0.25, p_lk=0.3, routes=["context", "context", "unicode", "render"])
+                      eh_modes=["true", "false", "raise"], ieh_modes=["true", "true", "false", "raise"], xcs=["boom", "boom", "abort", "sysexit", "kbint", "stopiter"], p_inh=0.25, p_lk=0.3, npy=(0, 2), routes=["context", "context", "unicode", "render"])
     g = rc.Gen(run.rng, prof)
     n_base = 100 if not thorough else 900
     import itertools
@@ -102,7 +102,7 @@ def check(run):
     # random programs with their own % try placement, includes with/without include_error_handler
     prof2 = rc.profile(w=dict(expr=5, callc=4, block=2, inc=3, **{"try": 4, "for": 2, "with": 2}), nincs=(1, 2), depth=3,
                        eh=0.35, fe=0.1, p_fm=0.8, p_dm=0.8, p_amark=0.5, p_cmark=0.4,
-                       eh_modes=["true", "false", "raise"], ieh_modes=["true", "true", "false", "raise"], xcs=["boom", "boom", "abort", "sysexit", "kbint", "stopiter"], p_inh=0.25, p_lk=0.3, routes=["context", "context", "unicode", "render"])
+                       eh_modes=["true", "false", "raise"], ieh_modes=["true", "true", "false", "raise"], xcs=["boom", "boom", "abort", "sysexit", "kbint", "stopiter"], p_inh=0.25, p_lk=0.3, npy=(0, 2), routes=["context", "context", "unicode", "render"])
     g2 = rc.Gen(run.rng, prof2)
     progs += [g2.gen_prog() for _ in range(180 if not thorough else 1800)]
     run.extra["programs"] = len(progs)
